@@ -2,7 +2,7 @@
     partition, a media backup, or a disk set - yields the state the page-path
     theorem needs, the geometry, and extents that lay out the page data. *)
 From Coq Require Import NArith List Bool Lia Arith.
-From KdV Require Import Fmt.Codec Fmt.CodecProofs Fmt.PfnModel Fmt.PfnProofs Fmt.BitmapSpec Fmt.ImageSpec
+From KdV Require Import Fmt.Codec Fmt.CodecProofs Fmt.PfnModel Fmt.PfnProofs Fmt.PfnBridge Fmt.BitmapSpec Fmt.ImageSpec
      Fmt.SadumpModel Fmt.SadumpSpec Fmt.SadumpProofs.
 Import ListNotations.
 Local Open Scope N_scope.
@@ -125,8 +125,6 @@ Section Head.
   Let n := N.to_nat ((bs - 168) / 4).
   Let cpus := nr_cpus l.
 
-  Hypothesis Hrd : forall off k, rd 0 off k = read_of F off k.
-
   Definition phf : list fld :=
     [ F32 1969512819; F32 28781; F32 1; F32 0; F32 0; F32 0; FB 64 [];
       FB 32 (sub (sl_ids l) 0 32); FB 16 vol; FB 16 (sub (sl_ids l) 32 16);
@@ -226,6 +224,8 @@ Section Head.
 
   Lemma data_pos_is : data_pos = hdr_pos + body_len l.
   Proof. unfold data_pos, bmp_pos, body_len. fold bs. lia. Qed.
+
+  Hypothesis Hrd : forall off k, rd 0 off k = read_of F off k.
 
   Lemma sph_is : rd 0 base SPH_SIZE = enc_flds false phf.
   Proof.
@@ -439,20 +439,31 @@ Section Head.
          let max_bmp_pfn := bmp_len * 8 in
          let max_pfn := if max_bmp_pfn <? pa_max_pfn a then max_bmp_pfn else pa_max_pfn a in
          let bm := rd (ex_fidx e0) (pa_bmp_pos a) bmp_len in
-         Ok {| sd_block_size := pa_block_size a;
-               sd_ptr_size := match pa_ptr a with Some p => p | None => 0 end;
-               sd_max_pfn := max_pfn;
-               sd_regions := regions_from_bitmap true bm 0 max_bmp_pfn 0 SADUMP_PAGE_SIZE;
-               sd_ext := pa_ext a; sd_nfiles := nf |}
+         match regions_of true (pa_bmp_pos a mod 4) bm 0 max_bmp_pfn 0 SADUMP_PAGE_SIZE with
+         | Err e => Err e
+         | Ok rgns =>
+             Ok {| sd_block_size := pa_block_size a;
+                   sd_ptr_size := match pa_ptr a with Some p => p | None => 0 end;
+                   sd_max_pfn := max_pfn;
+                   sd_regions := rgns;
+                   sd_ext := pa_ext a; sd_nfiles := nf |}
+         end
      end) = Ok (the_state img nbytes (ext0 :: rest) (sl_max_mapnr l) bs ptr nf).
   Proof.
     intros He Hb Hm Hbs Hp. rewrite He, Hb, Hm, Hbs, Hp. cbn [ext0 ex_pos ex_fidx].
     replace (data_pos - bmp_pos) with (bs * sl_dumpable_blocks l) by (unfold data_pos; lia).
     destruct (sw_cover _ _ Hwf) as [Hcov _]. fold bs in Hcov.
     destruct (N.ltb_spec (bs * sl_dumpable_blocks l * 8) (sl_max_mapnr l)); [lia |].
-    rewrite rd_db. unfold the_state, bm. fold DB. unfold nbytes.
-    replace (N.of_nat (8 * N.to_nat (sl_dumpable_blocks l * bs))) with (bs * sl_dumpable_blocks l * 8) by lia.
-    reflexivity.
+    rewrite rd_db.
+    (* the word-level MSB-0 scanner on the packed bitmap gives the runs of the bit walk *)
+    rewrite regions_of_spec.
+    - unfold the_state, bm. fold DB. unfold nbytes.
+      replace (N.of_nat (8 * N.to_nat (sl_dumpable_blocks l * bs))) with (bs * sl_dumpable_blocks l * 8) by lia.
+      reflexivity.
+    - apply bits_to_bytes_ok.
+    - rewrite len_DB.
+      assert ((bs * sl_dumpable_blocks l * 8 + 7) / 8 < sl_dumpable_blocks l * bs + 1)
+        by (apply N.div_lt_upper_bound; lia). lia.
   Qed.
 
   (** ** [open_common] on this file *)
@@ -565,8 +576,8 @@ Section Single.
   Proof.
     pose proof (sw_size _ _ Hwf) as H. rewrite enc_single in H. cbn [hd] in H. unfold F in H.
     rewrite !len_app in H.
-    rewrite (len_body l img [] [] [] (sw_base _ _ Hwf)) in H.
-    pose proof (len_PHb l img [] [] data vol 0 (sw_base _ _ Hwf)) as Hp. unfold PHb in Hp.
+    rewrite (len_body l img rd [] [] [] (sw_base _ _ Hwf)) in H.
+    pose proof (len_PHb l img rd [] [] data vol 0 (sw_base _ _ Hwf)) as Hp. unfold PHb in Hp.
     change (len (@nil N) + sl_block_size l + len (@nil N) + body_len l + len data) with usedH in Hp.
     rewrite usedH_is in Hp. rewrite Hp in H. rewrite usedH_is. fold bs in H. lia.
   Qed.
@@ -584,7 +595,7 @@ Section Single.
     unfold probe_file.
     pose proof (sph_is l img rd [] [] data vol 0 rd_head) as Hs. change (len []) with 0 in Hs.
     rewrite Hs.
-    destruct (sph_fields l img [] [] data vol 0 Hb break_single Hv Hd used_small) as [Hsig _].
+    destruct (sph_fields l img rd [] [] data vol 0 Hb rd_head break_single Hv Hd used_small) as [Hsig _].
     rewrite Hsig.
     pose proof (oc_plain l img rd [] [] data vol 0 Hb rd_head break_single Hv Hd used_small (a0 1) None
                   eq_refl (or_introl eq_refl) I eq_refl) as Ho.
@@ -657,8 +668,8 @@ Section Media.
   Proof.
     pose proof (sm_size _ _ Hwf) as H. rewrite enc_media in H. cbn [hd] in H. unfold F in H.
     rewrite !len_app in H.
-    rewrite (len_body l img [] [] [] (sm_base _ _ Hwf)) in H.
-    pose proof (len_PHb l img MH [] data vol 0 (sm_base _ _ Hwf)) as Hp. unfold PHb in Hp.
+    rewrite (len_body l img rd [] [] [] (sm_base _ _ Hwf)) in H.
+    pose proof (len_PHb l img rd MH [] data vol 0 (sm_base _ _ Hwf)) as Hp. unfold PHb in Hp.
     change (len MH + sl_block_size l + len (@nil N) + body_len l + len data) with usedH in Hp.
     rewrite usedM_is in Hp. rewrite Hp, len_MH in H. rewrite usedM_is. fold bs in H. lia.
   Qed.
@@ -705,7 +716,7 @@ Section Media.
     rewrite Hnosig.
     pose proof (sph_is l img rd MH [] data vol 0 rd_headM) as Hs. rewrite len_MH in Hs.
     unfold DEFAULT_BLOCK_SIZE. rewrite Hs.
-    destruct (sph_fields l img MH [] data vol 0 Hb break_media Hv Hd used_smallM) as [Hsig _].
+    destruct (sph_fields l img rd MH [] data vol 0 Hb rd_headM break_media Hv Hd used_smallM) as [Hsig _].
     rewrite Hsig.
     assert (Hne : Some (rd 0 0 SMH_SIZE) <> None) by (intro Hx; inversion Hx).
     pose proof (oc_plain l img rd MH [] data vol 0 Hb rd_headM break_media Hv Hd used_smallM (a0 1)
@@ -809,7 +820,7 @@ Section Later.
   Lemma len_phL : len (part_header l disk vol used) = bs.
   Proof.
     rewrite phL_is, len_app, len_enc_flds, len_magic_seq.
-    destruct (bs_facts l img [] [] [] Hb) as [_ [E _]]. fold bs n in E. cbn [flds_len fld_len phfG]. lia.
+    destruct (bs_facts l img rd [] [] [] Hb) as [_ [E _]]. fold bs n in E. cbn [flds_len fld_len phfG]. lia.
   Qed.
 
   Lemma sphL_is : rd fidx 0 SPH_SIZE = enc_flds false (phfG l disk vol used).
@@ -824,7 +835,7 @@ Section Later.
 
   Lemma vmnL : verify_magic_number rd fidx 0 = Ok bs.
   Proof.
-    unfold verify_magic_number. destruct (bs_facts l img [] [] [] Hb) as [[Hb1 Hb2] [Ebs Hn]]. fold bs n in Hb1, Hb2, Ebs, Hn.
+    unfold verify_magic_number. destruct (bs_facts l img rd [] [] [] Hb) as [[Hb1 Hb2] [Ebs Hn]]. fold bs n in Hb1, Hb2, Ebs, Hn.
     pose proof (sw_magic0 _ _ Hb) as Hm0.
     assert (Hmu : magic_seq n (sl_magic0 l) = put32 false (sl_magic0 l) ++ magic_seq (n - 1) (nx (sl_magic0 l))).
     { destruct n as [| k] eqn:E; [lia |]. cbn [magic_seq]. replace (S k - 1)%nat with k by lia. reflexivity. }
@@ -841,7 +852,7 @@ Section Later.
     rewrite len_enc_flds in Hrun. change (flds_len (phfG l disk vol used)) with 168 in Hrun.
     unfold SPH_SIZE. rewrite N.add_0_l. rewrite Hrun.
     - replace (168 + 4 + 4 * N.of_nat (n - 1)) with bs by lia.
-      rewrite N.sub_0_r. unfold bs. rewrite (is_pow2_bs l img [] [] [] Hb). reflexivity.
+      rewrite N.sub_0_r. unfold bs. rewrite (is_pow2_bs l img rd [] [] [] Hb). reflexivity.
     - change (2^20) with 1048576 in Hb2. lia.
     - exact Hm0.
     - replace (S (n - 1)) with (S (N.to_nat ((sl_block_size l - 168) / 4 - 1))); [exact Hbreak |].
@@ -1115,8 +1126,8 @@ Section DiskSet.
   Proof.
     pose proof (files_small 0 n_pos) as H. rewrite files_nth in H by apply n_pos. cbn [Nat.eqb] in H.
     unfold head_file in H. rewrite !len_app in H.
-    rewrite (len_body l img [] [] [] Hb) in H.
-    pose proof (len_PHb l img [] SH d1 v1 1 Hb) as Hp. unfold PHb in Hp.
+    rewrite (len_body l img rd [] [] [] Hb) in H.
+    pose proof (len_PHb l img rd [] SH d1 v1 1 Hb) as Hp. unfold PHb in Hp.
     change (len (@nil N) + sl_block_size l + len SH + body_len l + len d1) with usedH in Hp.
     rewrite usedS_is in Hp. rewrite Hp in H. rewrite usedS_is. fold bs in H. lia.
   Qed.
@@ -1211,7 +1222,7 @@ Section DiskSet.
     pose proof n_pos as Hn. pose proof v1_len as Hv. assert (Hd : 1 < 2^32) by reflexivity.
     unfold probe_file.
     pose proof (sph_is l img rd [] SH d1 v1 1 rd_headS) as Hs. change (len []) with 0 in Hs. rewrite Hs.
-    destruct (sph_fields l img [] SH d1 v1 1 Hb break_set Hv Hd used_smallS) as [Hsig _]. rewrite Hsig.
+    destruct (sph_fields l img rd [] SH d1 v1 1 Hb rd_headS break_set Hv Hd used_smallS) as [Hsig _]. rewrite Hsig.
     pose proof (oc_set l img rd [] SH d1 v1 1 Hb rd_headS break_set Hv Hd used_smallS (a0 n) (N.of_nat n) vol_all
                   eq_refl ltac:(lia) eq_refl) as Ho.
     change (len (@nil N)) with 0 in Ho at 1.
@@ -1245,7 +1256,7 @@ Section DiskSet.
     assert (Husedk : bs + len (nth k ds []) < 2^64).
     { pose proof (files_small k ltac:(lia)) as H. rewrite files_nth in H by lia.
       destruct k as [| j]; [lia |]. cbn [Nat.eqb] in H. unfold later_file in H. rewrite len_app in H.
-      pose proof (len_phL l img (N.of_nat (S j)) (nth (S j) vols []) (nth (S j) ds []) Hb) as Hp.
+      pose proof (len_phL l img rd (N.of_nat (S j)) (nth (S j) vols []) (nth (S j) ds []) Hb Hrdk) as Hp.
       fold bs in Hp. rewrite Hp in H. exact H. }
     pose proof (probe_later l img rd (N.of_nat k) (N.of_nat n) (nth k vols []) (nth k ds []) Hb Hrdk Hbrk Hvk
                   ltac:(lia) Husedk a Ibs Iids) as Hp.
